@@ -7,9 +7,11 @@ import (
 	"os"
 
 	"compiler/verifh/c01"
+	"compiler/verifh/c02"
 	"compiler/verifh/c04"
 	"compiler/verifh/c05"
 	"compiler/verifh/c08"
+	"compiler/verifh/c09"
 	"compiler/verifh/c10"
 	"compiler/verifh/c11"
 	"compiler/verifh/c12"
@@ -22,9 +24,11 @@ import (
 
 var checks = map[string]func(*vl.Ctx){
 	"C01": c01.Run,
+	"C02": c02.Run,
 	"C04": c04.Run,
 	"C05": c05.Run,
 	"C08": c08.Run,
+	"C09": c09.Run,
 	"C10": c10.Run,
 	"C11": c11.Run,
 	"C12": c12.Run,
